@@ -172,8 +172,8 @@ func c16Fen(run *vl.Run, tier string) {
 		for _, side := range []string{"w", "b", "x", "W", ""} {
 			for _, ca := range []string{"-", "KQkq", "K", "qk", "KK", "x", ""} {
 				for _, ep := range []string{"-", "e3", "e6", "a9", "i3", "e", "h8", ""} {
-					for _, hm := range []string{"0", "99", "-1", "x", "99999999999999999999", ""} {
-						for _, fm := range []string{"1", "0", "-5", "x", ""} {
+					for _, hm := range []string{"0", "99", "-1", "x", "99999999999999999999", "9223372036854775807", ""} {
+						for _, fm := range []string{"1", "0", "-5", "x", "", "4611686018427387904", "9223372036854775807"} {
 							edits = append(edits, strings.TrimRight(strings.Join([]string{pl, side, ca, ep, hm, fm}, " "), " "))
 							edits = append(edits, strings.Join([]string{pl, side, ca, ep, hm, fm}, " "))
 						}
@@ -209,7 +209,7 @@ func c16Fen(run *vl.Run, tier string) {
 // ---- UCI lines ----
 
 var uciTokens = []string{"uci", "isready", "ucinewgame", "position", "go", "stop", "ponderhit", "setoption", "debug", "register", "noop", "xyz", "perft",
-	"startpos", "fen", "moves", "depth", "nodes", "movetime", "wtime", "btime", "winc", "binc", "movestogo", "mate", "infinite", "ponder", "searchmoves", "name", "value",
+	"startpos", "fen", "moves", "depth", "nodes", "movetime", "moveTime", "wtime", "btime", "winc", "binc", "movestogo", "mate", "infinite", "ponder", "searchmoves", "name", "value",
 	"0", "1", "2", "-1", "x", "99999999999999999999", "e2e4", "e7e5", "e2e5", "a1b1",
 	"8/8/8/8/8/8/4k3/K7", "w", "-", "9/8/8/8/8/8/8/8", "Hash", "Use_Hash", "false"}
 
@@ -330,6 +330,11 @@ func uciCase(run *vl.Run, lines []string, family string) {
 		case strings.Contains(x.Detail, "nil pointer"):
 			cls = "uci-panic:nil-pointer:" + panicSite(x.Detail)
 		}
+		for _, l := range lines {
+			if len(strings.Fields(l)) > 500 && strings.Contains(x.Detail, "index out of range [512]") {
+				cls = "uci-panic:game-history-capacity"
+			}
+		}
 		run.Violate(cls, "handler or search panicked: "+x.Detail, rep)
 		return
 	case "deadlock", "horizon":
@@ -405,6 +410,15 @@ func c16(tier string, args []string) int {
 		}
 	}
 	lines = append(lines, "", " ", "position fen 8/8/8/8/8/8/4k3/K7 w - - 0 1 moves a1b1 e2d2", "position startpos moves e2e4 e7e5 g1f3", "go wtime 100 btime 100 winc 1 binc 1 movestogo 5 depth 2")
+	// move lists around the documented game-length capacity (512 plies)
+	shuffle := []string{"g1f3", "g8f6", "f3g1", "f6g8"}
+	for _, plies := range []int{380, 400, 511, 512, 513, 600} {
+		var ms []string
+		for i := 0; i < plies; i++ {
+			ms = append(ms, shuffle[i%4])
+		}
+		lines = append(lines, "position startpos moves "+strings.Join(ms, " "))
+	}
 	var cases int64
 	for i, l := range lines {
 		if i%n != shard || run.Expired() {
@@ -421,7 +435,22 @@ func c16(tier string, args []string) int {
 		"position startpos moves e2e4", "position startpos", "go", "go depth", "go depth 1", "go nodes 5", "go infinite", "go ponder", "go movetime 3", "go wtime 0", "go mate 1",
 		"go searchmoves e2e4 depth 1", "go depth x", "stop", "ponderhit", "isready", "ucinewgame", "uci", "setoption name Hash value 0", "setoption name Use_Hash value false",
 		"setoption name Hash value 1", "setoption", "xyz", "debug", "register", "noop"}
+	// a search started close to the game-length capacity
 	pi := 0
+	for _, plies := range []int{384, 480, 505, 509, 511} {
+		var ms []string
+		for i := 0; i < plies; i++ {
+			ms = append(ms, shuffle[i%4])
+		}
+		for _, g := range []string{"go depth 2", "go depth 4", "go movetime 30"} {
+			pi++
+			if pi%n != shard {
+				continue
+			}
+			uciCase(run, []string{"position startpos moves " + strings.Join(ms, " "), g}, "search near the game-length capacity")
+			cases++
+		}
+	}
 	for _, a := range sub {
 		for _, b := range sub {
 			pi++
